@@ -15,8 +15,13 @@ Definition gecdh : G ServerECDHParams := do p <- gecparams; do q <- gb8; gret (m
 Definition gsigned (new : bool) : G DigitallySigned :=
   do d <- gb16;
   if new then (do h <- gint 8; do s <- gint 8; gret (mkDS (Some (h, s)) d)) else gret (mkDS None d).
+(* a quarter of the entries are minimal (empty extensions and/or empty signature) *)
 Definition gsct : G SCT :=
-  do v <- gint 8; do id <- gslice 32; do ts <- gint 64; do e <- gb16; do sg <- gsigned true; gret (mkSCT v id ts e sg).
+  do v <- gint 8; do id <- gslice 32; do ts <- gint 64;
+  do k <- rnd 8;
+  do e <- (if k <? 2 then gslice 0 else gb16);
+  do sg <- (if (k =? 0) || (k =? 2) then (do h <- gint 8; do s <- gint 8; gret (mkDS (Some (h, s)) (mkS 0 []))) else gsigned true);
+  gret (mkSCT v id ts e sg).
 
 Definition gcase_kx : G (list case) :=
   do d <- gdh; do p <- gecparams; do e <- gecdh; do sn <- gsigned true; do so <- gsigned false;
